@@ -206,7 +206,9 @@ func (ft *ftrans) initialEnv(in map[*gvar]bool) *env {
 	return e
 }
 
-func (ft *ftrans) line(e *env, s string) { ft.out.WriteString(e.ind + s + "\n") }
+func (ft *ftrans) line(e *env, s string) {
+	ft.out.WriteString(e.ind + strings.TrimRight(s, " ") + "\n")
+}
 
 func (ft *ftrans) body(e *env) {
 	for _, v := range ft.named { // named results start at their zero value
